@@ -258,9 +258,9 @@ func (m *Model) buildMap(named *types.Named, iface string) *MapModel {
 	if st != nil {
 		for i := 0; i < st.NumFields(); i++ {
 			f := st.Field(i)
-			if b, ok := f.Type().(*types.Basic); ok && b.Kind() == types.UnsafePointer {
+			if IsAtomicPointerType(f.Type()) {
 				if mm.TableF != "" {
-					bad("two unsafe.Pointer fields on %s", mm.Name)
+					bad("two pointer-word fields on %s", mm.Name)
 				}
 				mm.TableF = f.Name()
 			}
@@ -279,6 +279,13 @@ func (m *Model) buildMap(named *types.Named, iface string) *MapModel {
 			case ssa.CallInstruction:
 				if op, addr, ok := AtomicOp(x); ok {
 					a := Addr(addr)
+					if a.Owner == mm.Name && op == "Load" && a.Field == mm.TableF && mm.TableF != "" {
+						if v, isV := in.(ssa.Value); isV {
+							if n := namedOf(v.Type()); n != "" && structOf(v.Type()) != nil {
+								mm.TableT = n
+							}
+						}
+					}
 					if a.Owner == mm.Name && op == "CAS" {
 						mm.FlagF = a.Field
 						if mm.Resize != nil && mm.Resize != f {
@@ -306,6 +313,8 @@ func (m *Model) buildMap(named *types.Named, iface string) *MapModel {
 						mm.Wait = f
 					}
 				}
+			case *ssa.Call:
+				// handled above (CallInstruction); typed atomic pointer: the load yields *table directly
 			case *ssa.Convert:
 				// table type: conversion from unsafe.Pointer loaded from the table field
 				if c, ok := x.X.(*ssa.Call); ok {
@@ -559,12 +568,16 @@ func (m *Model) inferWrappers() {
 				continue
 			}
 			var evs []*LockEvent
+			deferred := false
 			Instrs(f, func(in ssa.Instruction) {
 				if ev := m.LockEventOf(in); ev != nil {
 					evs = append(evs, ev)
 				}
+				if d, isDefer := in.(*ssa.Defer); isDefer && m.LockEventOfCall(d) != nil {
+					deferred = true // a deferred lock operation: the function pairs its own lock, it is not a wrapper
+				}
 			})
-			if len(evs) == 0 {
+			if len(evs) == 0 || deferred {
 				continue
 			}
 			uniform := true
